@@ -66,14 +66,18 @@ Theorem C18_calendar_inverse :
     valid_date y m d = true /\ days_from_civil y m d = z.
 Proof. exact civil_roundtrip. Qed.
 
-(* full statement of the round trip: every unit, each of the 11 listed formats (k = 1 is also the
-   format strftime uses by default), every instant the format can express.  NOT proved in full
-   (see notes/C18.md): kept as a definition; the partial theorem below covers the default format. *)
-Definition fmt_k (k : nat) : list item := nth k rules fmt_default.
+(* full statement of the round trip: every unit, each of the 11 listed formats (fmt_k 1 is also the
+   format strftime uses by default), every non-NaT instant chrono can represent and the format can
+   express (whole seconds unless the format has %f, midnight for the date-only formats 2 3 5 9,
+   years 0..9999 for the formats 3 4 7 8 whose %Y is followed directly by digits), parsed back with
+   the format given explicitly AND through the rule list of DateTime::parse(s, None).
+   NOT proved in full (see notes/C18.md); the two partial theorems below cover
+   (a) the default format, explicit and through the rule list, years 0000..9999;
+   (b) all 11 formats with the format given explicitly, years 0000..9999.                         *)
 Definition expressible (u : Z) (k : nat) (x : Z) (f : dtf) : Prop :=
-  (k <> 1%nat -> x mod per_sec u = 0) /\                                  (* whole seconds *)
-  (In k [2; 3; 5; 9]%nat -> x mod (86400 * per_sec u) = 0) /\            (* midnight      *)
-  (In k [3; 4; 7; 8]%nat -> 0 <= f_y f <= 9999).                          (* undelimited %Y *)
+  (has_frac k = false -> x mod per_sec u = 0) /\
+  (date_only k = true -> x mod (86400 * per_sec u) = 0) /\
+  (In k [3; 4; 7; 8]%nat -> 0 <= f_y f <= 9999).
 Definition C18_datetime_roundtrip_full_statement : Prop :=
   forall u k x f,
     unit_code u -> (k < 11)%nat -> in_i64 x = true -> x <> i64_min ->
@@ -95,6 +99,31 @@ Theorem C18_datetime_roundtrip_partial :
     dt_parse u (render fmt_default f) = Some x.
 Proof. exact dt_default_roundtrip. Qed.
 
+(* partial (b): each of the 11 listed formats, format given explicitly, years 0000..9999, all four
+   units, every instant the format can express.                                                  *)
+Theorem C18_datetime_roundtrip_listed_partial :
+  forall u k x f,
+    unit_code u -> (k < 11)%nat -> in_i64 x = true -> x <> i64_min ->
+    fields_of_instant u x = Some f -> 0 <= f_y f <= 9999 ->
+    (has_frac k = false -> x mod per_sec u = 0) ->
+    (date_only k = true -> x mod (86400 * per_sec u) = 0) ->
+    dt_format u (fmt_k k) x = Ok (render (fmt_k k) f) /\
+    parse_with u (fmt_k k) (render (fmt_k k) f) = Some x.
+Proof. exact dt_listed_roundtrip. Qed.
+
+(* non-vacuity of (b): 2020-01-01 12:34:56 in seconds through "%d/%m/%Y%H%M%S" (rule 8, one of the
+   two repaired formats) and 2020-01-01 in milliseconds through "%Y%m%d" (rule 3) *)
+Example C18_datetime_listed_example :
+  let f := mk_dtf 2020 1 1 12 34 56 0 in
+  let g := mk_dtf 2020 1 1 0 0 0 0 in
+  fields_of_instant 0 1577882096 = Some f /\ 1577882096 mod per_sec 0 = 0 /\
+  render (fmt_k 8) f = [48;49;47;48;49;47;50;48;50;48;49;50;51;52;53;54] /\
+  parse_with 0 (fmt_k 8) (render (fmt_k 8) f) = Some 1577882096 /\
+  fields_of_instant 1 1577836800000 = Some g /\ 1577836800000 mod (86400 * per_sec 1) = 0 /\
+  render (fmt_k 3) g = [50;48;50;48;48;49;48;49] /\
+  parse_with 1 (fmt_k 3) (render (fmt_k 3) g) = Some 1577836800000.
+Proof. vm_compute. repeat split. Qed.
+
 (* non-vacuity: 2020-09-13 12:26:40.123456789 at nanosecond resolution, 1969-12-31 23:59:59.999 at ms *)
 Example C18_datetime_example :
   let f := mk_dtf 2020 9 13 12 26 40 123456789 in
@@ -112,3 +141,4 @@ Print Assumptions C18_scanner_invariant.
 Print Assumptions C18_wellformed.
 Print Assumptions C18_calendar_inverse.
 Print Assumptions C18_datetime_roundtrip_partial.
+Print Assumptions C18_datetime_roundtrip_listed_partial.
